@@ -86,7 +86,7 @@ type Contracts struct {
 var clauseKeywords = map[string]bool{
 	"requires": true, "ensures": true, "modifies": true, "let": true, "ext": true, "loop": true,
 	"onwrite": true, "hint": true, "mode": true, "assume": true, "guards": true, "owns": true,
-	"invariant": true, "inline": true, "props": true, "by": true, "oncall": true, "atexit": true, "havoc": true, "assert": true, "locks": true, "premise": true,
+	"invariant": true, "inline": true, "props": true, "by": true, "oncall": true, "atexit": true, "havoc": true, "assert": true, "locks": true, "premise": true, "witness": true,
 }
 var topKeywords = map[string]bool{
 	"func": true, "extfunc": true, "pure": true, "ghost": true, "monitor": true, "lemma": true,
@@ -254,7 +254,7 @@ func (c *Contracts) parseFile(pkgPath, file string) error {
 				rest = rest[len(m[0]):]
 			}
 			switch first {
-			case "let", "ext":
+			case "let", "ext", "witness":
 				k := strings.Index(rest, ":=")
 				if k < 0 {
 					return fmt.Errorf("%s: expected name := expr", d.src)
